@@ -159,3 +159,35 @@ impl<'a> TryFrom<&'a Store> for PriceValidator {
         })
     }
 }
+
+// verif hooks (g5): add-only, cfg-guarded thin wrappers of `pub(super)` methods. No logic of their own.
+#[cfg(gmsol_verif)]
+impl PriceValidator {
+    /// Calls `PriceValidator::validate_one`.
+    pub fn verif_validate_one(
+        &mut self,
+        token_config: &TokenConfig,
+        provider: &PriceProviderKind,
+        oracle_ts: i64,
+        oracle_slot: u64,
+        price: &Price,
+        ref_price: Option<&Decimal>,
+    ) -> Result<()> {
+        self.validate_one(token_config, provider, oracle_ts, oracle_slot, price, ref_price)
+    }
+
+    /// Calls `PriceValidator::merge_range`.
+    pub fn verif_merge_range(
+        &mut self,
+        min_oracle_slot: Option<u64>,
+        min_oracle_ts: i64,
+        max_oracle_ts: i64,
+    ) {
+        self.merge_range(min_oracle_slot, min_oracle_ts, max_oracle_ts)
+    }
+
+    /// Calls `PriceValidator::finish`.
+    pub fn verif_finish(self) -> Result<Option<(u64, i64, i64)>> {
+        self.finish()
+    }
+}
